@@ -20,6 +20,18 @@ import (
 	"time"
 )
 
+// outRoot is where evidence/ and replays/ are written (VERIF_OUT_DIR is used by experiments on
+// scratch worktrees so that they never overwrite the evidence of the registered checks).
+var outRoot = func() string {
+	if v := os.Getenv("VERIF_OUT_DIR"); v != "" {
+		return v
+	}
+	if v := os.Getenv("VERIF_ROOT"); v != "" {
+		return v
+	}
+	return "/verif"
+}()
+
 var verifRoot = func() string {
 	if v := os.Getenv("VERIF_ROOT"); v != "" {
 		return v
@@ -407,7 +419,7 @@ func finish(p *PropDef, m *Merged, start time.Time, scratch string) int {
 	knownPrinted := map[string]bool{}
 	written := 0
 	unknownClasses := 0
-	os.MkdirAll(filepath.Join(verifRoot, "replays"), 0o755)
+	os.MkdirAll(filepath.Join(outRoot, "replays"), 0o755)
 	var vioLines []string
 	for _, k := range classes {
 		a := m.Classes[k]
@@ -432,7 +444,7 @@ func finish(p *PropDef, m *Merged, start time.Time, scratch string) int {
 				continue
 			}
 			h := sha1.Sum([]byte(v.Kind + "\x00" + v.Key))
-			path := filepath.Join(verifRoot, "replays", p.ID+"-"+hex.EncodeToString(h[:6])+".json")
+			path := filepath.Join(outRoot, "replays", p.ID+"-"+hex.EncodeToString(h[:6])+".json")
 			b, _ := json.MarshalIndent(v, "", " ")
 			os.WriteFile(path, b, 0o644)
 			written++
@@ -542,7 +554,7 @@ func writeEvidence(p *PropDef, m *Merged, start time.Time, nviol, suppressed int
 		"violations":  nviol,
 	}
 	b, _ := json.MarshalIndent(ev, "", " ")
-	dir := filepath.Join(verifRoot, "evidence")
+	dir := filepath.Join(outRoot, "evidence")
 	os.MkdirAll(dir, 0o755)
 	tmp := filepath.Join(dir, "."+p.ID+".json.tmp")
 	os.WriteFile(tmp, b, 0o644)
